@@ -32,6 +32,8 @@ type opCLICase struct {
 	Defs bool `json:"defs,omitempty"`
 	// InVTT: the input files are WebVTT documents with an X-TIMESTAMP-MAP header (a segment of a stream)
 	InVTT bool `json:"in_vtt,omitempty"`
+	// InSTL: the input files are EBU STL files whose programme starts at 10:00:00:00 (written by the library from the cues)
+	InSTL bool `json:"in_stl,omitempty"`
 	// Extra: the command line also carries flags that belong to other sub-commands (they have no effect on this one)
 	Extra bool `json:"extra,omitempty"`
 }
@@ -99,6 +101,28 @@ func checkOpCLI(c opCLICase) string {
 		}
 		in, other = filepath.Join(dir, "in.vtt"), filepath.Join(dir, "other.vtt")
 		inDoc, otherDoc = vttOf(c.Cues), vttOf(c.Other)
+	}
+	if c.InSTL && !c.Defs && !c.InVTT {
+		stlOf := func(cues []cueSpec) []byte {
+			s := astisub.NewSubtitles()
+			s.Metadata = &astisub.Metadata{Framerate: 25, STLDisplayStandardCode: "0", STLTimecodeStartOfProgramme: 10 * time.Hour}
+			for _, cu := range cues {
+				it := &astisub.Item{StartAt: time.Duration(cu.S), EndAt: time.Duration(cu.E)}
+				for _, l := range strings.Split(textKey(cu.T), "|") {
+					it.Lines = append(it.Lines, astisub.Line{Items: []astisub.LineItem{{Text: l}}})
+				}
+				s.Items = append(s.Items, it)
+			}
+			var buf bytes.Buffer
+			if len(s.Items) == 0 || s.WriteToSTL(&buf) != nil {
+				return nil
+			}
+			return buf.Bytes()
+		}
+		if a, b := stlOf(c.Cues), stlOf(c.Other); a != nil && (b != nil || c.Sub != "merge") {
+			in, other = filepath.Join(dir, "in.stl"), filepath.Join(dir, "other.stl")
+			inDoc, otherDoc = a, b
+		}
 	}
 	if os.WriteFile(in, inDoc, 0o644) != nil || os.WriteFile(other, otherDoc, 0o644) != nil {
 		return ""
@@ -190,6 +214,7 @@ func cliCases(t *testing.T, pid, sub string) {
 		}
 		c := opCLICase{Sub: sub, Cues: ms(genCues(rt, 1, 6, maxT, []string{"a", "b", "a|b"})), Ext: rapid.SampledFrom([]string{"srt", "vtt", "ttml", "SRT", "Ttml", "VTT", "ssa", "ass"}).Draw(rt, "ext")}
 		c.InVTT = rapid.IntRange(0, 3).Draw(rt, "invtt") == 0
+		c.InSTL = rapid.IntRange(0, 3).Draw(rt, "instl") == 0
 		var maxEnd int64 = nsMs
 		for _, cu := range c.Cues {
 			if cu.E > maxEnd {
